@@ -866,12 +866,22 @@ impl<'a> RepositoryUpdate<'a> {
         self.metrics.serial = Some(notify.content().serial());
         self.metrics.session = Some(notify.content().session_id());
 
+        // Deltas are applied to the archive in place. If that fails half
+        // way through, the archive neither is the old nor the new version
+        // any more.
+        let mut archive_is_dirty = false;
+
         if let Some((archive, state)) = current {
             match self.delta_update(&notify, archive, state)? {
                 None => {
                     return Ok(true)
                 }
                 Some(reason) => {
+                    archive_is_dirty = matches!(
+                        reason,
+                        SnapshotReason::ConflictingDelta
+                        | SnapshotReason::CorruptArchive
+                    );
                     self.metrics.snapshot_reason = Some(reason)
                 }
             }
@@ -879,7 +889,22 @@ impl<'a> RepositoryUpdate<'a> {
         else {
             self.metrics.snapshot_reason = Some(SnapshotReason::NewRepository);
         }
-        self.snapshot_update(&notify)
+        let updated = self.snapshot_update(&notify)?;
+        if !updated && archive_is_dirty {
+            // We couldn’t replace the archive with the snapshot, so we have
+            // to get rid of it lest a later update builds on it.
+            if let Err(err) = fs::remove_file(self.path.as_ref()) {
+                if !matches!(err.kind(), io::ErrorKind::NotFound) {
+                    error!(
+                        "Fatal: Failed to delete RRDP repository file \
+                         {}: {}",
+                        self.path.display(), err
+                    );
+                    return Err(RunFailed::fatal())
+                }
+            }
+        }
+        Ok(updated)
     }
 
     /// Handle the case of a Not Modified response.
